@@ -79,9 +79,32 @@ def run(ck):
     ck.assumptions += ['1e-6 relative accuracy of length() for generic (non-collinear) curves and elliptical arcs is numeric accuracy proper: only the coarse '
                        'rigorous bracket is decided here', 'tolerances as in the property: 1e-6 relative, 5e-3 where the speed vanishes inside the interval']
     ck.tlc('BezierBox', 'BezierBox_MC.cfg', need_actions=['Step'])
-    r = ck.tlc('BezierBox', 'SPECIFICATION Spec\nCONSTANTS Vals <- ValsA\n W = 8\n MaxDen = 7\nCONSTRAINT AtStart\nINVARIANT Dump\n', workers=1, coverage=False)
+    r = ck.tlc('BezierBox', 'SPECIFICATION Spec\nCONSTANTS Vals <- ValsA\n W = 8\n MaxDen = 7\n Degs <- DegsAll\nCONSTRAINT AtStart\nINVARIANT Dump\n', workers=1, coverage=False)
     cases = [c for c in r.cases if c['tvok'] and len(c['P']) >= 3 and len(set(c['P'])) > 1]
     rnd.shuffle(cases)
+    # wide family of collinear quadratics (control values -9..9) in several directions: whole-curve length in closed form
+    rq = ck.tlc('BezierBox', 'SPECIFICATION Spec\nCONSTANTS Vals <- ValsC\n W = 8\n MaxDen = 40\n Degs <- Degs2\nCONSTRAINT AtStart\nINVARIANT Dump\n',
+                workers=1, coverage=False)
+    qcases = [c for c in rq.cases if len(set(c['P'])) > 1]
+    if quick:
+        qcases = rnd.sample(qcases, 1500)
+    for c in qcases:
+        P = c['P']
+        tvq = c['qtv'][0] / float(c['qtv'][1])
+        for d in (1 + 0j, 1j, 3 + 4j, 1 + 1j, -2 + 1j):
+            seg = sp.QuadraticBezier(P[0] * d, P[1] * d, P[2] * d)
+            exp = abs(d) * tvq
+            ck.case(fp=('wideq', tuple(P), d), nontrivial=c['ncrit'] > 0)
+            try:
+                got = seg.length()
+            except Exception as e:      # noqa
+                got = e
+            tol = (5e-3 if c['ncrit'] > 0 or len(set(P)) < 3 else 1e-6) * exp
+            if isinstance(got, Exception) or not (got == got) or abs(got) == float('inf') or got < 0 or abs(got - exp) > tol:
+                ck.disagree(key='QuadraticBezier.length/collinear-%s' % ('fold-back' if c['ncrit'] > 0 else 'monotone'), site='svgpathtools/path.py:QuadraticBezier.length',
+                            what='collinear quadratic %r: length() = %r, exact %r' % (seg, got, exp), case={'P': P, 'd': str(d)}, expected=exp, observed=repr(got), driver='wide-quadratics')
+                break
+    ck.sample('wide-quadratic', {'P': [-4, 6, -9], 'length': 13})
     old = sppath._quad_available
     try:
         for cfg, n in (('scipy', 160 if quick else 1100), ('no-scipy', 25 if quick else 200)):
